@@ -141,7 +141,9 @@ pub fn check_stream(text: &str, t: &mut Tally) {
     vrt::spans::reset();
 }
 
-const ITEM_FORMS: [&str; 42] = [
+const ITEM_FORMS: [&str; 46] = [
+    // raw identifiers that are not keywords stay raw, in every item form and inside paths
+    "r#foo", "a::r#bar(r#baz = 1)", "r#foo = r#qux", "r#Self_x::r#y",
     // C strings, raw strings, numbers beyond 128 bits, suffixed and exponent forms
     "c\"x\"", "cr#\"x\"#", "r#\"raw\"#", "-170141183460469231731687303715884105729", "a = -340282366920938463463374607431768211457", "a = 1e400", "7u8", "a = 1_000.5e-3f64",
     "5", "-5", "1.5", "\"s\"", "'c'", "b\"x\"", "b'c'", "true", "false", "a", "a::b", "::a::b", "crate::x", "self", "r#type", "a = 1", "a = \"s\"", "a = -1", "a = b::c", "a = f::<x, y>()",
@@ -692,7 +694,7 @@ pub fn main(args: &Args) {
     rep.set("generated_lists", json!(n_lists));
     rep.set("lists_mutated", json!(n_base));
     rep.rule = format!(
-        "history probes: 1100 malformed lists alternating with well-formed ones on one thread (a well-formed list is answered as the first time after 1, 2, 8, .. 1025 refusals), six attributes turned into lists in both orders (each located at its own tokens). parser: every list of 0..{} items over 42 item forms (all literal kinds incl. negative numbers and byte strings; paths incl. `::a::b`, keywords, raw identifiers; name-values with 11 expression forms incl. turbofish / closure commas and `true = 1`; lists nested to depth 3; `a(,)`), with and without a trailing comma, and every single-token mutation (delete, duplicate, insert one of , ; = :: ! -, identifier -> keyword) of {n_base} of them, (plus lists of 5..65 items with the forms in rotation from every offset) against an independent recogniser (all segmentations at commas into chunks that are wholly a syn::Lit or a syn::Meta): accept/reject, item count, order, class, token text, print/re-parse identity. routing: 128 probe types (every subset of the seven hooks overridden) x 58 item forms (word, lists incl. one-literal lists, name-value with each literal kind incl. byte / byte-string / C-string / negated numbers, operators in front of literals and other non-literal expressions, values inside 1-2 invisible groups, bare literal members) x 4 hook behaviours (Ok, unspanned Err, pre-spanned Err, unspanned bundle of spanned members) against the documented priority chain: exactly one hook (the outermost overridden on the chain) or a default rejection of the documented kind; errors come back with the item's span unless already spanned (for a word or a list exactly the item's span, for a name-value a span inside the item). states = token streams / (probe, item, behaviour) triples.",
+        "history probes: 1100 malformed lists alternating with well-formed ones on one thread (a well-formed list is answered as the first time after 1, 2, 8, .. 1025 refusals), six attributes turned into lists in both orders (each located at its own tokens). parser: every list of 0..{} items over 46 item forms (all literal kinds incl. negative numbers and byte strings; paths incl. `::a::b`, keywords, raw identifiers; name-values with 11 expression forms incl. turbofish / closure commas and `true = 1`; lists nested to depth 3; `a(,)`), with and without a trailing comma, and every single-token mutation (delete, duplicate, insert one of , ; = :: ! -, identifier -> keyword) of {n_base} of them, (plus lists of 5..65 items with the forms in rotation from every offset) against an independent recogniser (all segmentations at commas into chunks that are wholly a syn::Lit or a syn::Meta): accept/reject, item count, order, class, token text, print/re-parse identity. routing: 128 probe types (every subset of the seven hooks overridden) x 58 item forms (word, lists incl. one-literal lists, name-value with each literal kind incl. byte / byte-string / C-string / negated numbers, operators in front of literals and other non-literal expressions, values inside 1-2 invisible groups, bare literal members) x 4 hook behaviours (Ok, unspanned Err, pre-spanned Err, unspanned bundle of spanned members) against the documented priority chain: exactly one hook (the outermost overridden on the chain) or a default rejection of the documented kind; errors come back with the item's span unless already spanned (for a word or a list exactly the item's span, for a name-value a span inside the item). states = token streams / (probe, item, behaviour) triples.",
         if thorough { 3 } else { 2 }
     );
     rep.assumptions = vec!["syn::Lit / syn::Meta parsing of a whole chunk defines what an item is".into()];
